@@ -233,3 +233,97 @@ def describe(steps):
         elif st["t"] == "C":
             out.append("IF(%s){%s}" % ({k: v for k, v in st["cond"].items() if k != "dims"}, describe([st["inner"]])[0]))
     return out
+
+
+# ------------------------------------------------------------------ programs with measurements / feed-forward
+def _conf_matrix(rng, d):
+    """row-stochastic matrix with well separated entries"""
+    m = rng.dirichlet(np.ones(d) * 0.7, size=d) * 0.5 + np.eye(d) * 0.5
+    if rng.random() < 0.3:
+        m = np.eye(d)[rng.permutation(d)] * 0.75 + np.full((d, d), 0.25 / d)
+    return m / m.sum(axis=1, keepdims=True)
+
+
+def gen_meas_program(rng, dims, nsteps=None, max_digits=8, pred=None, allow_conf=True, allow_ctrl=True,
+                     allow_reset=True, allow_mask_and_conf=True, keys=("a", "b", "c")):
+    """Steps with measurements (masks, confusion maps, repeated keys), resets and classical control."""
+    n = len(dims)
+    nsteps = nsteps or int(rng.integers(3, 11))
+    steps, measured, digits = [], {}, 0  # measured: key -> tuple of dims
+    for i in range(nsteps):
+        r = rng.random()
+        last = i == nsteps - 1
+        if (r < 0.28 or last) and digits < max_digits:
+            k = int(rng.integers(1, min(n, 3) + 1))
+            key = keys[int(rng.integers(len(keys)))]
+            if key in measured:  # repeated key: same shape
+                want = measured[key]
+                cands = [w for w in _wire_tuples(rng, dims, len(want)) if tuple(dims[x] for x in w) == want]
+                if not cands:
+                    continue
+                wires = cands[0]
+            else:
+                wires = tuple(int(w) for w in rng.choice(n, size=k, replace=False))
+            if digits + len(wires) > max_digits:
+                continue
+            st = {"t": "M", "key": key, "w": wires}
+            has_mask = rng.random() < 0.4
+            if has_mask:
+                ln = int(rng.integers(1, len(wires) + 1))
+                st["mask"] = tuple(bool(b) for b in rng.integers(0, 2, size=ln))
+            if allow_conf and rng.random() < 0.3 and (allow_mask_and_conf or not has_mask):
+                sub = tuple(sorted(int(x) for x in rng.choice(len(wires), size=int(rng.integers(1, min(2, len(wires)) + 1)), replace=False)))
+                d = L.dim_of([dims[wires[j]] for j in sub])
+                st["conf"] = {sub: _conf_matrix(rng, d)}
+            measured[key] = tuple(dims[w] for w in wires)
+            digits += len(wires)
+            steps.append(st)
+        elif r < 0.45 and allow_ctrl and measured:
+            inner = gen_unitary_step(rng, dims, pred, arity_w=(0.0, 0.6, 0.4, 0.0))
+            steps.append({"t": "C", "cond": gen_cond(rng, measured), "inner": inner})
+        elif r < 0.52 and allow_reset:
+            w = int(rng.integers(n))
+            steps.append({"t": "K", "spec": "reset_d%d" % dims[w], "p": (), "w": (w,)} if dims[w] in (2, 3)
+                         else gen_unitary_step(rng, dims, pred))
+        else:
+            steps.append(gen_unitary_step(rng, dims, pred))
+    if not any(s["t"] == "M" for s in steps):
+        steps.append({"t": "M", "key": keys[0], "w": (int(rng.integers(n)),)})
+    return steps
+
+
+def _wire_tuples(rng, dims, k):
+    n = len(dims)
+    out = []
+    for _ in range(12):
+        if k <= n:
+            out.append(tuple(int(w) for w in rng.choice(n, size=k, replace=False)))
+    return out
+
+
+def gen_cond(rng, measured):
+    keys = sorted(measured)
+    key = keys[int(rng.integers(len(keys)))]
+    dims = measured[key]
+    r = rng.random()
+    all_qubits = all(d == 2 for d in dims)
+    if r < 0.4:
+        c = {"t": "key", "key": key, "index": -1}
+        if rng.random() < 0.3:
+            c["index"] = int(rng.choice([0, -1]))
+            c["explicit_index"] = True
+        return c
+    if r < 0.6 and all_qubits:
+        nb = len(dims)
+        bm = None if rng.random() < 0.3 else int(rng.integers(1, 2 ** nb))
+        tv = int(rng.integers(0, 2 ** nb))
+        if bm is not None and rng.random() < 0.7:
+            tv &= bm
+        return {"t": "bitmask", "key": key, "index": int(rng.choice([-1, -1, 0])), "bitmask": bm, "target_value": tv,
+                "equal_target": bool(rng.integers(2))}
+    if r < 0.85:
+        return {"t": "sympy_eq", "key": key, "dims": dims, "const": int(rng.integers(0, L.dim_of(dims)))}
+    k2 = keys[int(rng.integers(len(keys)))]
+    if k2 == key:
+        return {"t": "sympy_eq", "key": key, "dims": dims, "const": int(rng.integers(0, L.dim_of(dims)))}
+    return {"t": "sympy_gt_sum", "keys": [(key, dims), (k2, measured[k2])], "const": int(rng.integers(0, 3))}
